@@ -128,6 +128,7 @@ def run(ctx):
     _arm_shift_amounts(ctx)
     _thumb_scaled_offsets(ctx)
     _x86_high_byte_registers(ctx)
+    _x86_opcode_extensions(ctx)
     arm_addressing_bits(ctx, "C08.R9")
 
 
@@ -525,6 +526,69 @@ def _x86_high_byte_registers(ctx):
     for name, num, node in high:
         ctx.ob("C08.R13", rrel + ":" + name, "`%s` (number %d) can be encoded: no 8-bit instruction class carries an unconditional REX prefix" % (name, num), not always_rex, construct="high-byte:" + name, node=node,
                detail="%d classes with a Register8 operand list RexToken unconditionally (e.g. %s): the bytes name %s" % (len(always_rex), ", ".join(always_rex[:3]), {4: "spl", 5: "bpl", 6: "sil", 7: "dil"}[num]))
+
+
+# Intel SDM vol. 2, appendix A.4.2, table A-6 "Opcode extensions for one- and two-byte opcodes by group number": ModRM.reg selects the operation
+X86_GROUP = {
+    2: ({0xC0, 0xC1, 0xD0, 0xD1, 0xD2, 0xD3}, {"rol": 0, "ror": 1, "rcl": 2, "rcr": 3, "shl": 4, "sal": 4, "shr": 5, "sar": 7}),
+    3: ({0xF6, 0xF7}, {"test": 0, "not": 2, "neg": 3, "mul": 4, "imul": 5, "div": 6, "idiv": 7}),
+    5: ({0xFE, 0xFF}, {"inc": 0, "dec": 1, "call": 2, "jmp": 4, "push": 6}),
+}
+
+
+def _x86_opcode_extensions(ctx):
+    """R14.  For the x86 opcode groups the operation is chosen by the 3-bit ModRM.reg field.  ppci passes that number as a literal next to the
+    mnemonic (make_rm("shl", 0xD1, 5), class ShlCl: r = 6); the pair is compared with the manual's table.  /6 of group 2 is not a documented
+    encoding (a reference disassembler rejects it), /5 is SHR."""
+    ctx.rule("C08.R14", "x86-64 opcode groups 2, 3 and 5: the ModRM.reg extension written next to a mnemonic is the one Intel's table A-6 assigns to it (shl/sal /4, shr /5, sar /7, rol /0, ror /1, not /2, neg /3, dec /1, jmp /4 ...)", floor=12)
+    rel = "ppci/arch/x86_64/instructions.py"
+    mod = ctx.project.module(rel)
+    n = 0
+    def group_of(opcode):
+        for g, (ops, table) in X86_GROUP.items():
+            if opcode in ops:
+                return g, table
+        return None, None
+    # factory calls: make_rm*(mnemonic, opcode, extension)
+    for c in ast.walk(mod.tree):
+        if isinstance(c, ast.Call) and norm(c.func).split(".")[-1].startswith("make_rm") and len(c.args) >= 3 and all(isinstance(_tc8(a), (str, int)) for a in c.args[:3]):
+            mn, opc, ext = _tc8(c.args[0]), _tc8(c.args[1]), _tc8(c.args[2])
+            if not (isinstance(mn, str) and isinstance(opc, int) and isinstance(ext, int)):
+                continue
+            g, table = group_of(opc)
+            if g is None:
+                continue
+            n += 1
+            ctx.ob("C08.R14", rel, "`%s` with opcode 0x%02X (group %d) uses /%s" % (mn, opc, g, table.get(mn, "?")), table.get(mn) == ext, construct="ext:%s:0x%02X" % (mn, opc), node=c, detail="written: /%d" % ext)
+    # classes with a literal `r = N` whose base fixes the opcode
+    classes = {c.name: c for c in ast.walk(mod.tree) if isinstance(c, ast.ClassDef)}
+    def opcode_of(cls, depth=0):
+        for st in cls.body:
+            if isinstance(st, ast.Assign) and norm(st.targets[0]) == "patterns" and isinstance(st.value, ast.Dict):
+                for k, v in zip(st.value.keys, st.value.values):
+                    if _tc8(k) == "opcode" and isinstance(_tc8(v), int):
+                        return _tc8(v)
+            if isinstance(st, ast.Assign) and norm(st.targets[0]) == "opcode" and isinstance(_tc8(st.value), int):
+                return _tc8(st.value)
+        for b in cls.bases:
+            if norm(b) in classes and depth < 4:
+                o = opcode_of(classes[norm(b)], depth + 1)
+                if o is not None:
+                    return o
+        return None
+    for cls in classes.values():
+        r = [st.value for st in cls.body if isinstance(st, ast.Assign) and norm(st.targets[0]) == "r" and isinstance(_tc8(st.value), int)]
+        syn = [st.value for st in cls.body if isinstance(st, ast.Assign) and norm(st.targets[0]) == "syntax" and isinstance(st.value, ast.Call) and st.value.args and isinstance(st.value.args[0], ast.List)]
+        if not r or not syn or not syn[0].args[0].elts:
+            continue
+        mn = _tc8(syn[0].args[0].elts[0])
+        opc = opcode_of(cls)
+        g, table = group_of(opc) if opc is not None else (None, None)
+        if g is None or not isinstance(mn, str):
+            continue
+        n += 1
+        ctx.ob("C08.R14", "%s:%s" % (rel, cls.name), "`%s` with opcode 0x%02X (group %d) uses /%s" % (mn, opc, g, table.get(mn, "?")), table.get(mn) == _tc8(r[0]), construct="ext:%s:%s" % (cls.name, mn), node=cls, detail="written: r = %d" % _tc8(r[0]))
+    ctx.need(n >= 12, "x86 opcode-extension sites: %d found, 15 confirmed by reading" % n)
 
 
 def arm_addressing_bits(ctx, rid):
